@@ -18,6 +18,9 @@
 -/
 import XotModel.Generated
 import XotModel.Lemmas.FwsFrame
+import XotModel.Lemmas.FparseHistStep
+import XotModel.Lemmas.ParseWitness
+import XotModel.Model.FspecSpec
 
 namespace XotModel.Props
 open XotModel XotModel.Fws
@@ -174,5 +177,156 @@ example :
     (adjacentWitness.removeInsignificantWhitespace 2).value? 1 = some (.text [' ']) ∧
     (adjacentWitness.removeInsignificantWhitespace 2).value? 3 = some (.text ['\t']) ∧
     (adjacentWitness.removeInsignificantWhitespace 2).consolidation = true := by decide
+
+/-! # ================================================================================================
+    # REACHABLE STORES: the call on any node of any store a history of parses and API calls reaches
+    # (branch wt-reach2)
+    # ================================================================================================
+
+  The theorems above assume `Forest.Inv`.  `PCall` histories on `PStore` (Model/FparseHist.lean: a step is the
+  parse of an ARBITRARY text, accepted or not, or any extended API call `Forest.XCall`) keep it from
+  `Xot::new()` (`PStore.fph_run_inv` = `C04_reach_full`, Props/C04.lean), so for the stores such a history
+  reaches the hypothesis is discharged; what is left is `PCall.wellKinded` of the steps (a condition on calls as
+  data: `mapInsert` into a view is given an entry of that view's kind) and the position of the start node,
+  which every live node has (`C18_reachable_position_full`).
+
+  `remove_insignificant_whitespace(node)` IS a step of these histories (`Forest.XCall.removeInsignificantWhitespace`),
+  so the statements are about the store after `cs ++ [strip]` (`C18_reachable_step_full`: forest = the model
+  function applied to the reached forest, tables and xml:id index untouched, answer `ok`). -/
+
+/-- The strip call as a history step. -/
+def stripCall (node : Nat) : PCall := .api (.removeInsignificantWhitespace node)
+
+/-- ⟦C18_reachable_step_full⟧ The call is a step: it answers `ok`, leaves interning tables and xml:id index
+    alone, its forest is `Forest.removeInsignificantWhitespace` of the forest it meets, it is well-kinded, and
+    the invariant holds after it. -/
+theorem C18_reachable_step_full (env : Env) (cs : List PCall) (hw : ∀ c ∈ cs, c.wellKinded) (node : Nat) :
+    let s := (PStore.init env).run cs
+    let s' := (PStore.init env).run (cs ++ [stripCall node])
+    s'.forest = s.forest.removeInsignificantWhitespace node ∧ s'.env = s.env ∧ s'.index = s.index ∧
+    ((stripCall node).run s).2 = .api .ok ∧ (stripCall node).wellKinded ∧ s.forest.Inv ∧ s'.forest.Inv := by
+  intro s s'
+  have e : s' = s.step (stripCall node) := by
+    show (PStore.init env).run (cs ++ [stripCall node]) = _
+    rw [PStore.fph_run_append]; rfl
+  have hi : s.forest.Inv := PStore.fph_run_inv cs (PStore.fph_init_inv env) hw
+  have hk : (stripCall node).wellKinded := by unfold stripCall PCall.wellKinded Forest.XCall.wellKinded; trivial
+  refine ⟨by rw [e]; rfl, by rw [e]; rfl, by rw [e]; rfl, rfl, hk, hi, ?_⟩
+  rw [e]; exact PStore.fph_step_inv hi _ hk
+
+/-- ⟦C18_reachable_position_full⟧ Every live node of a reached store has a position (so the theorems below
+    apply to every node the caller can name). -/
+theorem C18_reachable_position_full (env : Env) (cs : List PCall) (node : Nat) (t : HTree)
+    (h : ((PStore.init env).run cs).forest.get? node = some t) :
+    t.handle = node ∧ ∃ anc, Occurs ((PStore.init env).run cs).forest t anc := C18_position _ node t h
+
+/-- ⟦C18_reachable_exact_full⟧ **`C18_exact` for the call on any node of any store a history of parses and API
+    calls reaches**: the call removes exactly the specification's set. -/
+theorem C18_reachable_exact_full (env : Env) (cs : List PCall) (hw : ∀ c ∈ cs, c.wellKinded)
+    (t : HTree) (anc : List HTree) (pos : Occurs ((PStore.init env).run cs).forest t anc) :
+    let f := ((PStore.init env).run cs).forest
+    let g := ((PStore.init env).run (cs ++ [stripCall t.handle])).forest
+    (Forest.descendantsNormal t).filter f.isInsignificantWhitespace = specTopRemoved anc t ∧
+    g.allHandles = f.allHandles.filter (fun h => !(specTopRemoved anc t).contains h) ∧
+    (∀ h, f.isLive h = true → (g.isLive h = false ↔ h ∈ specTopRemoved anc t)) ∧
+    g.get? t.handle = specTop anc t := by
+  intro f g
+  have e : g = f.removeInsignificantWhitespace t.handle := (C18_reachable_step_full env cs hw t.handle).1
+  rw [e]
+  exact C18_exact f (PStore.fph_run_inv cs (PStore.fph_init_inv env) hw) t anc pos
+
+/-- ⟦C18_reachable_exact_members_full⟧ `C18_exact_members` on reached stores. -/
+theorem C18_reachable_exact_members_full (env : Env) (cs : List PCall) (hw : ∀ c ∈ cs, c.wellKinded)
+    (t : HTree) (anc : List HTree) (pos : Occurs ((PStore.init env).run cs).forest t anc)
+    (n : Nat) (hn : n ∈ specTopRemoved anc t) :
+    n ∈ HTree.handles t ∧
+    ∃ k ancn, Occurs ((PStore.init env).run cs).forest k ancn ∧ k.handle = n ∧ k.value.isText = true ∧
+      topDeleted ancn k = true :=
+  C18_exact_members _ (PStore.fph_run_inv cs (PStore.fph_init_inv env) hw) t anc pos n hn
+
+/-- ⟦C18_reachable_frame_full⟧ **`C18_frame` on reached stores**: every other node, value and order is
+    untouched, other trees are unchanged, the settings are as they were. -/
+theorem C18_reachable_frame_full (env : Env) (cs : List PCall) (hw : ∀ c ∈ cs, c.wellKinded)
+    (t : HTree) (anc : List HTree) (pos : Occurs ((PStore.init env).run cs).forest t anc) :
+    let f := ((PStore.init env).run cs).forest
+    let g := ((PStore.init env).run (cs ++ [stripCall t.handle])).forest
+    (g.next = f.next ∧ g.consolidation = f.consolidation ∧ g.everOff = f.everOff ∧ g.corrupt = f.corrupt) ∧
+    (∀ h, h ∉ specTopRemoved anc t → g.value? h = f.value? h ∧ g.parent? h = f.parent? h) ∧
+    g.allHandles = f.allHandles.filter (fun h => !(specTopRemoved anc t).contains h) ∧
+    (∀ r ∈ f.roots, t.handle ∉ HTree.handles r → r ∈ g.roots) ∧
+    g.Inv := by
+  intro f g
+  have e : g = f.removeInsignificantWhitespace t.handle := (C18_reachable_step_full env cs hw t.handle).1
+  rw [e]
+  exact C18_frame f (PStore.fph_run_inv cs (PStore.fph_init_inv env) hw) t anc pos
+
+/-- ⟦C18_reachable_idem_full⟧ **`C18_idem` on reached stores**: the call twice in a row = the call once. -/
+theorem C18_reachable_idem_full (env : Env) (cs : List PCall) (hw : ∀ c ∈ cs, c.wellKinded)
+    (t : HTree) (anc : List HTree) (pos : Occurs ((PStore.init env).run cs).forest t anc) :
+    ((PStore.init env).run (cs ++ [stripCall t.handle, stripCall t.handle])).forest =
+      ((PStore.init env).run (cs ++ [stripCall t.handle])).forest := by
+  have e1 : (PStore.init env).run (cs ++ [stripCall t.handle, stripCall t.handle]) =
+      (((PStore.init env).run cs).step (stripCall t.handle)).step (stripCall t.handle) := by
+    rw [PStore.fph_run_append]; rfl
+  have e2 : (PStore.init env).run (cs ++ [stripCall t.handle]) =
+      ((PStore.init env).run cs).step (stripCall t.handle) := by
+    rw [PStore.fph_run_append]; rfl
+  rw [e1, e2]
+  exact C18_idem _ (PStore.fph_run_inv cs (PStore.fph_init_inv env) hw) t anc pos
+
+/-- ⟦C18_reachable_safe_full⟧ **`C18_safe` on reached stores**: the collect-then-remove loop of the call is
+    safe whatever history produced the store. -/
+theorem C18_reachable_safe_full (env : Env) (cs : List PCall) (hw : ∀ c ∈ cs, c.wellKinded)
+    (t : HTree) (anc : List HTree) (pos : Occurs ((PStore.init env).run cs).forest t anc) :
+    let f := ((PStore.init env).run cs).forest
+    let toRemove := (Forest.descendantsNormal t).filter f.isInsignificantWhitespace
+    toRemove.Nodup ∧
+    ∀ pre n post, toRemove = pre ++ n :: post →
+      let g := pre.foldl (fun acc x => (acc.remove x).1) (consOff f)
+      g = pruned (consOff f) (fun h => pre.contains h) ∧
+      (g.remove n).1 = g.dropSubtree n ∧
+      ∀ m ∈ n :: post, g.textOf m = f.textOf m ∧ (f.textOf m).isSome = true :=
+  C18_safe _ (PStore.fph_run_inv cs (PStore.fph_init_inv env) hw) t anc pos
+
+/-- ⟦C18_reachable_safe_separated_full⟧ `C18_safe_separated` on reached stores (`everOff = false` holds of every
+    store whose history never called `set_text_consolidation(false)`). -/
+theorem C18_reachable_safe_separated_full (env : Env) (cs : List PCall) (hw : ∀ c ∈ cs, c.wellKinded)
+    (hoff : ((PStore.init env).run cs).forest.everOff = false)
+    (k : HTree) (anc : List HTree) (pos : Occurs ((PStore.init env).run cs).forest k anc)
+    (hk : k.value.isText = true) (p : Nat)
+    (hp : ((PStore.init env).run cs).forest.prevSibling k.handle = some p) :
+    ((PStore.init env).run cs).forest.textOf p = none :=
+  C18_safe_separated _ (PStore.fph_run_inv cs (PStore.fph_init_inv env) hw) hoff k anc pos hk p hp
+
+/-! ### Non-vacuity: parse, strip, read back (from the tables of `Xot::new()`, `Env.fresh`)
+
+  `<a> <b xml:space="preserve"> </b>\n</a>`: document 0, `a` = 1, the text ` ` = 2, `b` = 3 with the attribute
+  `xml:space` = 4 (name 0 of `Xot::new()`) and the text ` ` = 5, the text `\n` = 6.  Stripping at the document
+  removes 2 and 6 and keeps 5 (`preserve`). -/
+
+def c18Text : Str := "<a> <b xml:space=\"preserve\"> </b>\n</a>".toList
+def c18Calls : List PCall := [.parse .document c18Text]
+def c18Doc : HTree :=
+  .node 0 .document [.node 1 (.element 2) [.node 2 (.text [' ']) [],
+    .node 3 (.element 3) [.node 4 (.attribute 0 ['p', 'r', 'e', 's', 'e', 'r', 'v', 'e']) [], .node 5 (.text [' ']) []],
+    .node 6 (.text ['\n']) []]]
+theorem c18Calls_wellKinded : ∀ c ∈ c18Calls, c.wellKinded := by decide
+theorem c18Roots : ((PStore.init Env.fresh).run c18Calls).forest.roots = [c18Doc] := by decide +kernel
+theorem c18Pos : Occurs ((PStore.init Env.fresh).run c18Calls).forest c18Doc [] :=
+  .root (by rw [c18Roots]; exact List.mem_singleton.mpr rfl)
+
+example : (PStore.init Env.fresh).outs (c18Calls ++ [stripCall 0]) = [.parsed 0, .api .ok] := by decide +kernel
+example : specTopRemoved [] c18Doc = [2, 6] := by decide
+/-- read back: what the theorem says … -/
+example : ((PStore.init Env.fresh).run (c18Calls ++ [stripCall 0])).forest.allHandles =
+    ((PStore.init Env.fresh).run c18Calls).forest.allHandles.filter (fun h => !(specTopRemoved [] c18Doc).contains h) :=
+  (C18_reachable_exact_full Env.fresh c18Calls c18Calls_wellKinded c18Doc [] c18Pos).2.1
+/-- … and what the model computes. -/
+example : ((PStore.init Env.fresh).run (c18Calls ++ [stripCall 0])).forest.roots =
+    [.node 0 .document [.node 1 (.element 2)
+      [.node 3 (.element 3) [.node 4 (.attribute 0 ['p', 'r', 'e', 's', 'e', 'r', 'v', 'e']) [], .node 5 (.text [' ']) []]]]] ∧
+    ((PStore.init Env.fresh).run (c18Calls ++ [stripCall 0])).forest.allHandles = [0, 1, 3, 4, 5] ∧
+    ((PStore.init Env.fresh).run (c18Calls ++ [stripCall 0, stripCall 0])).forest.allHandles = [0, 1, 3, 4, 5] := by
+  decide +kernel
 
 end XotModel.Props
